@@ -9,7 +9,7 @@
 import VotelibProofs.Lemmas.ShapeDefs
 import VotelibProofs.Props.C12
 namespace VL.C08
-open VL VL.Score
+open VL VL.Score VL.Appr
 
 /-! ### the candidates of a score profile -/
 
@@ -611,5 +611,307 @@ example : PosCounts [([(0, 5), (1, 2)], 2), ([(1, 2), (2, 2)], 1), ([(2, 2)], 1)
     scoreVoting (C12.plainCfg .mean) [([(0, 5), (1, 2)], 2), ([(1, 2), (2, 2)], 1), ([(2, 2)], 1)] 2
       = .ok [Slot.cand 0, Slot.tie [1, 2]] := by
   refine ⟨by decide +kernel, by decide +kernel, by decide +kernel⟩
+
+/-! ### gluing selections -/
+
+theorem electedOf_eq_slotCands (l : List Slot) : electedOf l = slotCands l := by
+  induction l with
+  | nil => rfl
+  | cons s rest ih => cases s <;> simp [electedOf, slotCands, ih]
+
+theorem mem_electedOf {l : List Slot} {c : Cand} : c ∈ electedOf l ↔ Slot.cand c ∈ l := by
+  rw [electedOf_eq_slotCands]; exact slotCands_mem
+
+theorem count_tie_map_cand' (w : List Cand) (T : List Cand) : (w.map Slot.cand).count (Slot.tie T) = 0 := by
+  rw [List.count_eq_zero]
+  intro h
+  obtain ⟨c, _, hc⟩ := List.mem_map.mp h
+  cases hc
+
+/-- individually elected candidates `w` followed by a selection among other candidates -/
+theorem SelShape.prepend {cands cands' : List Cand} {m : Nat} {B : List Slot} {w : List Cand}
+    (hB : SelShape cands' m B) (hsub : ∀ c ∈ cands', c ∈ cands) (hw : ∀ c ∈ w, c ∈ cands) (hnd : w.Nodup)
+    (hdisj : ∀ c ∈ cands', c ∉ w) : SelShape cands (w.length + m) (w.map Slot.cand ++ B) := by
+  have htie : ∀ T, Slot.tie T ∈ w.map Slot.cand ++ B → Slot.tie T ∈ B := by
+    intro T hT
+    rcases List.mem_append.mp hT with h | h
+    · obtain ⟨c, _, hc⟩ := List.mem_map.mp h; cases hc
+    · exact h
+  refine ⟨by rw [List.length_append, List.length_map, hB.length], ?_, ?_, ?_, ?_, ?_⟩
+  · intro c hc
+    rcases List.mem_append.mp hc with h | h
+    · obtain ⟨d, hd, he⟩ := List.mem_map.mp h
+      injection he with he
+      exact hw c (he ▸ hd)
+    · exact hsub c (hB.cand_ok c h)
+  · intro T hT c hc
+    exact hsub c (hB.tie_ok T (htie T hT) c hc)
+  · rw [electedOf_append, electedOf_map_cand]
+    refine List.nodup_append.mpr ⟨hnd, hB.nodup, ?_⟩
+    intro a ha b hb hab
+    subst hab
+    exact hdisj a (hB.cand_ok a (mem_electedOf.mp hb)) ha
+  · intro T hT
+    rw [List.count_append, count_tie_map_cand', Nat.zero_add]
+    exact hB.tie_big T (htie T hT)
+  · intro T hT c hc hcand
+    have hT' := htie T hT
+    rcases List.mem_append.mp hcand with h | h
+    · obtain ⟨d, hd, he⟩ := List.mem_map.mp h
+      injection he with he
+      exact hdisj c (hB.tie_ok T hT' c hc) (he ▸ hd)
+    · exact hB.disjoint T hT' c hc h
+
+/-! ### Majority judgment: the tie-breakers have the selection shape -/
+
+theorem tiebreakPlus_shape (scores : ScoreTable) (k : Nat) (h1 : 1 ≤ k) (hlen : k ≤ scores.length)
+    (hnd : (scores.map (·.1)).Nodup) (r : List Slot) (h : tiebreakPlus scores k = .ok r) :
+    SelShape (scores.map (·.1)) k r := by
+  unfold tiebreakPlus at h
+  cases scores with
+  | nil => cases h
+  | cons p ps =>
+    simp only at h
+    cases hm : aggregateOne .medianLow p.2 with
+    | error e => rw [hm] at h; cases h
+    | ok m =>
+      rw [hm] at h
+      injection h with h
+      subst h
+      refine getNBest_shape_of_keys _ _ ?_ hnd k h1 (by simpa using hlen)
+      simp [keys, List.map_map, Function.comp_def]
+
+/-- the places before the first tie object are individual candidates -/
+theorem firstTie_take {l : List Slot} {j : Nat} (h : firstTie l = some j) :
+    j < l.length ∧ l.take j = (slotCands (l.take j)).map Slot.cand ∧ (slotCands (l.take j)).length = j := by
+  induction l generalizing j with
+  | nil => simp [firstTie] at h
+  | cons s rest ih =>
+    cases s with
+    | tie T =>
+      simp only [firstTie] at h
+      injection h with h
+      subst h
+      simp [slotCands]
+    | cand c =>
+      simp only [firstTie] at h
+      cases hf : firstTie rest with
+      | none => rw [hf] at h; cases h
+      | some j' =>
+        rw [hf] at h
+        simp only [Option.map_some] at h
+        injection h with h
+        subst h
+        obtain ⟨h1, h2, h3⟩ := ih hf
+        refine ⟨by simp; omega, ?_, ?_⟩
+        · simp only [List.take_succ_cons, slotCands, List.map_cons]
+          rw [← h2]
+        · simp only [List.take_succ_cons, slotCands, List.length_cons, h3]
+
+theorem filter_keys_length {K w : List Cand} (hK : K.Nodup) :
+    K.length ≤ (K.filter (fun c => !(w.contains c))).length + w.length := by
+  have h := List.length_eq_length_filter_add (l := K) (fun c => w.contains c)
+  have h2 : (K.filter (fun c => w.contains c)).length ≤ w.length := by
+    apply List.Subperm.length_le
+    apply List.Nodup.subperm (hK.filter _)
+    intro x hx
+    have := (List.mem_filter.mp hx).2
+    simpa using this
+  have h3 : (K.filter (fun c => !(w.contains c))).length = (K.filter (fun x => !(fun c => w.contains c) x)).length := rfl
+  omega
+
+/-- **the default tie-break has the selection shape whenever it returns** -/
+theorem tiebreakDefault_shape : ∀ (fuel : Nat) (scores : ScoreTable) (n : Nat) (r : List Slot),
+    tiebreakDefault fuel scores n = .ok r → 1 ≤ n → n ≤ scores.length → (scores.map (·.1)).Nodup →
+      SelShape (scores.map (·.1)) n r := by
+  intro fuel
+  induction fuel with
+  | zero => intro scores n r h; simp [tiebreakDefault] at h
+  | succ fuel ih =>
+    intro scores n r h h1 hlen hnd
+    unfold tiebreakDefault at h
+    cases scores with
+    | nil => simp at h
+    | cons p0 ps =>
+      simp only at h
+      split at h
+      · cases h
+      · cases hm : aggregate .medianLow (p0 :: ps) with
+        | error e => rw [hm] at h; cases h
+        | ok medians =>
+          rw [hm] at h
+          have hk := aggregate_keys hm
+          have hbest := getNBest_shape_of_keys medians _ hk hnd n h1 (by simpa using hlen)
+          simp only [bind, Except.bind] at h
+          split at h
+          · injection h with h; subst h; exact hbest
+          · rename_i i hi
+            obtain ⟨hj, htake, hwl⟩ := firstTie_take hi
+            rw [hbest.length] at hj
+            cases hrec : tiebreakDefault fuel
+                (List.filter (fun p => !(slotCands (List.take (i + 1) (getNBest medians n))).contains p.1) (p0 :: ps))
+                (n - (i + 1)) with
+            | error e => rw [hrec] at h; cases h
+            | ok rest =>
+              rw [hrec] at h
+              injection h with h
+              subst h
+              set wc := slotCands (List.take (i + 1) (getNBest medians n)) with hwc
+              have hwc_mem : ∀ c ∈ wc, Slot.cand c ∈ getNBest medians n := by
+                intro c hc
+                have : Slot.cand c ∈ List.take (i + 1) (getNBest medians n) := by
+                  rw [htake]; exact List.mem_map.mpr ⟨c, hc, rfl⟩
+                exact List.mem_of_mem_take this
+              have hwc_nd : wc.Nodup := by
+                have hn := hbest.nodup
+                rw [← List.take_append_drop (i + 1) (getNBest medians n), electedOf_append, electedOf_eq_slotCands] at hn
+                exact (List.nodup_append.mp hn).1
+              have hkeys : (List.filter (fun p => !(wc.contains p.1)) (p0 :: ps)).map (·.1)
+                  = ((p0 :: ps).map (·.1)).filter (fun c => !(wc.contains c)) := by
+                rw [List.filter_map]; rfl
+              have hlen' := filter_keys_length (K := (p0 :: ps).map (·.1)) (w := wc) hnd
+              have hshape := ih _ _ _ hrec (by omega) (by
+                have : (List.filter (fun p => !(wc.contains p.1)) (p0 :: ps)).length
+                    = ((List.filter (fun p => !(wc.contains p.1)) (p0 :: ps)).map (·.1)).length := by simp
+                rw [this, hkeys]
+                simp only [List.length_map] at hlen' hlen ⊢
+                omega) (by rw [hkeys]; exact hnd.filter _)
+              rw [hkeys] at hshape
+              rw [htake]
+              have := SelShape.prepend (cands := (p0 :: ps).map (·.1)) (w := wc) hshape
+                (fun c hc => (List.mem_filter.mp hc).1)
+                (fun c hc => hbest.cand_ok c (hwc_mem c hc)) hwc_nd
+                (fun c hc hcw => by
+                  have := (List.mem_filter.mp hc).2
+                  simp only [Bool.not_eq_true', List.contains_eq_mem, decide_eq_false_iff_not] at this
+                  exact this hcw)
+              rw [hwl] at this
+              have e : i + 1 + (n - (i + 1)) = n := by omega
+              rw [e] at this
+              exact this
+          · have := ih _ _ _ h h1 (by simpa using hlen) (by
+              simpa [List.map_map, Function.comp_def] using hnd)
+            simpa [List.map_map, Function.comp_def] using this
+
+/-! ### Majority judgment: shape -/
+
+theorem sortDedup_length_of_nodup {l : List Nat} (h : l.Nodup) : (sortDedup l).length = l.length :=
+  ((List.perm_ext_iff_of_nodup (sortDedup_nodup l) h).mpr (fun _ => mem_sortDedup)).length_eq
+
+theorem tableGet_isSome {t : ScoreTable} {c : Cand} (h : c ∈ t.map (·.1)) : ∃ cs, tableGet t c = some cs := by
+  unfold tableGet
+  cases hf : t.find? (fun p => decide (p.1 = c)) with
+  | some p => exact ⟨p.2, rfl⟩
+  | none =>
+    exfalso
+    obtain ⟨p, hp, hpc⟩ := List.mem_map.mp h
+    have := List.find?_eq_none.mp hf p hp
+    simp [hpc] at this
+
+/-- the table handed to the tie-breaker: exactly the tied candidates, in iteration order -/
+theorem tied_keys {t : ScoreTable} {T : List Cand} (h : ∀ c ∈ T, c ∈ t.map (·.1)) :
+    ((sortDedup T).filterMap (fun c => (tableGet t c).map (fun cs => (c, cs)))).map (·.1) = sortDedup T := by
+  have h' : ∀ c ∈ sortDedup T, c ∈ t.map (·.1) := fun c hc => h c (mem_sortDedup.mp hc)
+  generalize sortDedup T = l at h'
+  induction l with
+  | nil => rfl
+  | cons c rest ih =>
+    obtain ⟨cs, hcs⟩ := tableGet_isSome (h' c List.mem_cons_self)
+    rw [List.filterMap_cons, hcs]
+    simp only [Option.map_some, List.map_cons]
+    rw [ih (fun x hx => h' x (List.mem_cons_of_mem _ hx))]
+
+/-- **Majority judgment has the selection shape** (both tie-breaking rules, any settings, any profile): whenever
+    `evaluate(votes, n)` returns, with `1 ≤ n ≤ #candidates graded`, the result has exactly `n` places filled with
+    distinct graded candidates or ties of them. -/
+theorem mj_shape (tb : TieBreaking) (cfg : Cfg) (votes : SProfile) (n : Nat) (h1 : 1 ≤ n)
+    (hlen : n ≤ (scoreCands votes).length) (r : List Slot) (hok : majorityJudgment tb cfg votes n = .ok r) :
+    SelShape (scoreCands votes) n r := by
+  unfold majorityJudgment at hok
+  cases ht : correctedScores { cfg with fn := .medianLow } votes with
+  | error e => rw [ht] at hok; cases hok
+  | ok t =>
+    rw [ht] at hok
+    simp only [bind, Except.bind] at hok
+    cases ha : aggregate .medianLow t with
+    | error e => rw [ha] at hok; cases hok
+    | ok agg =>
+      rw [ha] at hok
+      simp only at hok
+      have htk : t.map (·.1) = scoreCands votes := correctedScores_keys ht
+      have hk : keys agg = scoreCands votes := by rw [aggregate_keys ha, htk]
+      have hnd : (keys agg).Nodup := hk ▸ scoreCands_nodup votes
+      have hlen' : n ≤ agg.length := by
+        have : agg.length = (keys agg).length := by simp [keys]
+        rw [this, hk]; exact hlen
+      have horder := getNBest_shape_of_keys agg _ hk (scoreCands_nodup votes) n h1 hlen
+      split at hok
+      · cases hok
+      · injection hok with hok; subst hok; exact horder
+      · rename_i T hlast
+        obtain ⟨τ, hτ, hlt, hT, htake⟩ := mj_tie_structure agg n h1 T hlast
+        have hmem : Slot.tie T ∈ getNBest agg n := List.mem_of_getLast? hlast
+        set k := (getNBest agg n).count (Slot.tie T) with hkdef
+        have hk1 : 1 ≤ k := List.count_pos_iff.mpr hmem
+        have hkT : k < T.length := horder.tie_big T hmem
+        have hkn : k ≤ n := by
+          have := List.count_le_length (a := Slot.tie T) (l := getNBest agg n)
+          rw [horder.length] at this
+          exact this
+        have hgk := ge_keys_nodup agg hnd τ
+        rw [← hT] at hgk
+        have hTnd : T.Nodup := (List.nodup_append.mp hgk).2.1
+        have hTsub : ∀ c ∈ T, c ∈ t.map (·.1) := by
+          intro c hc
+          rw [htk, ← hk]
+          exact horder.tie_ok T hmem c hc |> fun h => hk ▸ h
+        set tied : ScoreTable := (sortDedup T).filterMap (fun c => (tableGet t c).map (fun cs => (c, cs))) with htied
+        have htkeys : tied.map (·.1) = sortDedup T := tied_keys hTsub
+        have htlen : tied.length = T.length := by
+          have : tied.length = (tied.map (·.1)).length := by simp
+          rw [this, htkeys, sortDedup_length_of_nodup hTnd]
+        have hbroken : ∀ broken : List Slot, SelShape (tied.map (·.1)) k broken →
+            SelShape (scoreCands votes) n
+              ((getNBest agg n).take ((getNBest agg n).length - k) ++ broken) := by
+          intro broken hb
+          rw [htkeys] at hb
+          rw [htake]
+          have hmap : (aboveSorted agg τ).map (fun p => Slot.cand p.1) = ((aboveSorted agg τ).map (·.1)).map Slot.cand := by
+            rw [List.map_map]; rfl
+          rw [hmap]
+          have hal : ((aboveSorted agg τ).map (·.1)).length + k = n := by
+            have := congrArg List.length htake
+            rw [List.length_take, horder.length, List.length_map] at this
+            rw [List.length_map]
+            omega
+          have := SelShape.prepend (cands := scoreCands votes) (w := (aboveSorted agg τ).map (·.1)) hb
+            (fun c hc => by rw [← htk]; exact hTsub c (mem_sortDedup.mp hc))
+            (fun c hc => by
+              obtain ⟨p, hp, rfl⟩ := List.mem_map.mp hc
+              rw [← hk]
+              exact List.mem_map.mpr ⟨p, (C09.mem_aboveSorted.mp hp).1, rfl⟩)
+            (List.nodup_append.mp hgk).1
+            (fun c hc hcw => (List.nodup_append.mp hgk).2.2 c hcw c (mem_sortDedup.mp hc) rfl)
+          rw [hal] at this
+          exact this
+        cases tb with
+        | default =>
+          simp only at hok
+          cases hb : tiebreakDefault (tableFuel tied) tied k with
+          | error e => rw [hb] at hok; cases hok
+          | ok broken =>
+            rw [hb] at hok
+            injection hok with hok; subst hok
+            exact hbroken broken (tiebreakDefault_shape _ _ _ _ hb hk1 (by omega)
+              (by rw [htkeys]; exact sortDedup_nodup T))
+        | plus =>
+          simp only at hok
+          cases hb : tiebreakPlus tied k with
+          | error e => rw [hb] at hok; cases hok
+          | ok broken =>
+            rw [hb] at hok
+            injection hok with hok; subst hok
+            exact hbroken broken (tiebreakPlus_shape _ _ hk1 (by omega)
+              (by rw [htkeys]; exact sortDedup_nodup T) _ hb)
 
 end VL.C08
